@@ -3,6 +3,9 @@
 (A) Watching.tla: the resume-version logic of continuous_watch against a server change log with EOF / connection errors /
     timeouts / 410 / bookmarks / unknown ERROR, exhaustively for 4 changes x 3 faults: NoSkip, SinceNeverAhead, AllReach;
     the negative configuration (a resume version ahead of what was streamed) must violate SinceNeverAhead.
+(A') Orchestration.tla: revisions of the served (resource, namespace) pairs under the `revised` condition vs the orchestrator's
+    adjustments (stop redundant watchers, forget their keys, spawn the missing ones): Coverage at rest and EventuallyCovered for
+    every sequence of 4 revisions over 3 pairs; the negative model (lock released while adjusting) loses a wake-up.
 (B) the REAL operator against the stateful fake API, judged by the property automaton WatchMonitor.tla in TLC:
     continuity  random object histories with stream faults at random positions (EOF, connection error, 410 after
                 compaction, bookmarks, unsupported event types, unknown ERROR): every watch request resumes from exactly the
@@ -240,6 +243,17 @@ def run(ctx, rep) -> None:
     if r.ok:
         raise MachineryFailure('negative configuration of Watching did not violate SinceNeverAhead')
     rep.extra['negative_config'] = 'MC_Watching_neg (EagerBookmark): SinceNeverAhead violated, as required'
+    # the orchestrator: revisions of the served pairs vs the watcher tasks (condition lock held while adjusting)
+    r = tlc.run('Orchestration', 'MC_Orchestration.cfg')
+    rep.add_tlc('MC_Orchestration', r)
+    if not r.ok:
+        rep.violation(f'Orchestration design check: {r.violated} {r.errors[:1]}', files={'tlc.out': r.out[-100000:]})
+    for cfg, inv in (('MC_Orchestration_neg.cfg', 'Coverage'), ('MC_Orchestration_f15.cfg', 'NoFamily')):
+        rn = tlc.run('Orchestration', cfg)
+        if rn.ok or ('invariant', inv) not in rn.violated:
+            raise MachineryFailure(f'{cfg} did not violate {inv}: {rn.violated}')
+    rep.extra['negative_config_orchestration'] = ('MC_Orchestration_neg (lock released while adjusting: lost wake-up): Coverage violated; '
+                                                  'MC_Orchestration_f15: the family of watchers that die on their own (F15, F25) is reachable')
     cont = gen_continuity(ctx.seed, 150 if ctx.quick else 4000)
     cov = gen_coverage(ctx.seed, 60 if ctx.quick else 1500)
     with ProcessPoolExecutor(16) as ex:
